@@ -51,3 +51,4 @@ def run(ctx, R):
     rtpreserve.rule_const(ctx, R, 'rv64')
     rvdsread.rule_dsread(ctx, R)
     aeshw.rule_rvv_jit_vlen(ctx, R)
+    genreset.rule_ctor_init(ctx, R, 'rv64')
